@@ -23,6 +23,8 @@ def build_corpus(chk, tier, corpus_file, exhaustive_len=None, sizes=None):
         corpus.append(("exhaustive", asm.assemble(prog), None))
     for prog in progs.alias_programs():
         corpus.append(("alias", asm.assemble(prog), None))
+    for prog in progs.object_container_programs():
+        corpus.append(("objcontainer", asm.assemble(prog), None))
     for _ in range(nrand):
         corpus.append(("random", asm.assemble(progs.random_typed(rng)), None))
     for _ in range(nnat):
